@@ -66,8 +66,8 @@ TRANSPARENT = {
 }
 MIN_FNS = {"std::cmp::min", "std::cmp::Ord::min", "core::cmp::Ord::min", "core::cmp::min"}
 MAX_FNS = {"std::cmp::max", "std::cmp::Ord::max", "core::cmp::Ord::max", "core::cmp::max"}
-FMAX_FNS = {"std::f64::<impl f64>::max", "core::f64::<impl f64>::max", "f64::max"}
-FMIN_FNS = {"std::f64::<impl f64>::min", "core::f64::<impl f64>::min", "f64::min"}
+FMAX_FNS = {"std::f64::<impl f64>::max", "core::f64::<impl f64>::max", "f64::max", "core::f64::max", "std::f64::max"}
+FMIN_FNS = {"std::f64::<impl f64>::min", "core::f64::<impl f64>::min", "f64::min", "core::f64::min", "std::f64::min"}
 COMMUTATIVE = {"+", "*", "&", "|", "^", "==", "!=", "min", "max", "&&", "||"}
 
 
@@ -342,18 +342,15 @@ class FnView:
     def calls_to(self, *names, root=None):
         return self.find(lambda n: is_call_to(n, *names), root)
 
-    def in_closure_passed_to(self, n, *callee_names):
-        """Is n inside a closure that is an argument of a call to one of callee_names?"""
-        prev = n
+    def in_closure_passed_to(self, n, pred):
+        """Innermost call `c` with pred(c) such that n is inside a closure that is an argument of c."""
         for a in self.ancestors(n):
             if a.get("k") == "closure":
                 par = self.parent.get(id(a))
-                # skip transparent wrappers (blocks)
                 while par is not None and par.get("k") in ("block", "addr"):
                     par = self.parent.get(id(par))
-                if par is not None and is_call_to(par, *callee_names):
+                if par is not None and par.get("k") in ("call", "mcall") and pred(par):
                     return par
-            prev = a
         return None
 
     # -- A4 guard context
@@ -434,6 +431,8 @@ def lit_term(n):
             return ("lit", v)
     if lk == "bytes":
         return ("lit", bytes(v))
+    if lk == "int" and n.get("ty") in ("f64", "f32"):
+        return ("lit", float(v))
     return ("lit", v)
 
 
@@ -442,6 +441,16 @@ def mk_bin(op, l, r):
         op, l, r = "<", r, l
     elif op == ">=":
         op, l, r = "<=", r, l
+    if l[0] == "lit" and r[0] == "lit" and isinstance(l[1], int) and isinstance(r[1], int) \
+            and not isinstance(l[1], bool) and not isinstance(r[1], bool):
+        if op == "+":
+            return ("lit", l[1] + r[1])
+        if op == "-" and l[1] >= r[1]:
+            return ("lit", l[1] - r[1])
+        if op == "*":
+            return ("lit", l[1] * r[1])
+        if op == "<<" and r[1] < 64:
+            return ("lit", l[1] << r[1])
     if op in COMMUTATIVE and repr(r) < repr(l):
         l, r = r, l
     return ("bin", op, l, r)
@@ -1162,7 +1171,10 @@ def straightline(fv, stmts, tracked):
         if k in ("call", "mcall"):
             effects.append(ev(x))
             continue
-        if k in ("if", "match", "loop", "for", "while", "ret", "break", "continue"):
+        if k == "ret":
+            effects.append(("ret", ev(x["e"]) if x.get("e") is not None else ("unit",)))
+            break
+        if k in ("if", "match", "loop", "for", "while", "break", "continue"):
             raise Unsupported("control flow `%s` in a block expected to be straight-line (%s)"
                               % (k, line_of(x)))
         effects.append(ev(x))
